@@ -447,7 +447,7 @@ def raises(fn):
 def error_cases(draw):
     U = draw(gen.universes(min_dims=2, max_dims=3, max_len=3, kinds=("str", "ustr")))
     x = draw(gen.arrays(U, modes=("coded",), min_dims=2))
-    kind = draw(st.sampled_from(["unknown-item", "unknown-in-dict", "ambiguous", "ambiguous-in-tuple", "ambiguous-in-tuple", "slice", "not-subset", "unknown-dim", "unknown-in-list", "read-with-list", "read-with-tuple-list"]))
+    kind = draw(st.sampled_from(["unknown-item", "unknown-in-dict", "ambiguous", "ambiguous-in-tuple", "ambiguous-in-tuple", "unknown-convertible", "unknown-convertible", "slice", "not-subset", "unknown-dim", "unknown-in-list", "read-with-list", "read-with-tuple-list"]))
     return {"universe": U, "x": x, "kind": kind, "pos": draw(st.integers(0, 3)), "write": draw(st.booleans()), "tvar": draw(st.integers(0, 5))}
 
 
@@ -463,10 +463,29 @@ def run_error(desc):
         for d in U["dims"]:
             if d["letter"] in (l0, l1):
                 d["items"] = [shared] + list(d["items"])[1:] if len(d["items"]) > 1 else [shared]
+    if kind == "unknown-convertible":
+        # the addressed dimension is typed; the unknown item is of ANOTHER type and would turn into a known label if it
+        # were converted to the dimension's type (2010.7 -> 2010, '2020' -> 2020, 7 -> '7')
+        for d in U["dims"]:
+            if d["letter"] == l0:
+                n0 = len(d["items"])
+                if desc.get("tvar", 0) % 2 == 0:
+                    d["items"], d["dtype"] = [2000, 2010, 2020, 2030][:n0], "int"
+                else:
+                    d["items"], d["dtype"] = ["7", "12", "2020", "3"][:n0], "str"
     x = build.array(U, xd)
     snap = build.snapshot(x)
     it0 = build.udim(U, l0)["items"]
-    if kind == "unknown-item":
+    if kind == "unknown-convertible":
+        first = it0[0]
+        if isinstance(first, int):
+            cands = [first + 0.7, str(first), float(first) + 0.25, str(it0[-1])]
+        else:
+            cands = [int(first), float(first), int(it0[-1])]
+        bad = cands[(desc.get("tvar", 0) // 2) % len(cands)]
+        form = desc["pos"] % 3
+        key = {l0: bad} if form == 0 else ({build.udim(U, l0)["name"]: bad} if form == 1 else {l0: [it0[0], bad]})
+    elif kind == "unknown-item":
         key = "no-such-item"
     elif kind == "unknown-in-dict":
         key = {l0: "no-such-item"}
@@ -500,7 +519,7 @@ def run_error(desc):
         # several items of one dimension given as a list can be written to but not read (documented)
         def fn():
             return x[key]
-    elif desc["write"] or kind == "unknown-in-list" or (kind == "ambiguous-in-tuple" and len(key) > 2):
+    elif desc["write"] or kind == "unknown-in-list" or (kind == "ambiguous-in-tuple" and len(key) > 2) or (kind == "unknown-convertible" and isinstance(list(key.values())[0], list)):
         def fn():
             x[key] = 1.0
     else:
